@@ -53,6 +53,11 @@ def main():
         fb = files_of(b)
         for s, prop, ae in seeds:
             if fb & files_of(s):
+                # --new BATCHES,SUFFIX : only pairs that involve a benign batch whose id starts with one of BATCHES or a seed id ending in SUFFIX
+                if "--new" in sys.argv:
+                    bsel, ssel = sys.argv[sys.argv.index("--new") + 1].split(":")
+                    if not (b.parent.name.startswith(tuple(bsel.split(","))) or s.parent.name.endswith(ssel)):
+                        continue
                 items.append((b, s, prop, ae))
     print(len(items), "candidate compositions")
     stats = {"fire": 0, "noapply": 0, "MISS": 0, "error": 0}
